@@ -6,7 +6,7 @@
    of it (see AppApi.v).  Stated for EVERY well-behaved inner encoder, every chunk
    list, every buffer size, every fault index, every allocation oracle. *)
 From Coq Require Import ZArith List Bool.
-From A1 Require Import Base.Bytes Rt.Types Rt.Der Rt.Uper Rt.Oer Rt.AppApi Rt.AppApiProofs Rt.XerEnc Rt.XerEncProofs Rt.NewBufCap.
+From A1 Require Import Base.Bytes Rt.Types Rt.Der Rt.Uper Rt.Oer Rt.AppApi Rt.AppApiProofs Rt.XerEnc Rt.XerEncProofs Rt.NewBufCap Rt.XerChunk Rt.XerChunkProofs.
 Import ListNotations.
 Local Open Scope Z_scope.
 
@@ -236,3 +236,86 @@ Theorem C07_new_buffer_capacity_at_powers : forall k : nat, (4 <= k)%nat ->
   cap_ok (2 ^ Z.of_nat (S k)) (2 ^ Z.of_nat k + 1).
 Proof. exact capacity_at_powers. Qed.
 Print Assumptions C07_new_buffer_capacity_at_powers.
+
+(* ---- chunked body writers: primitive bodies longer than one local scratch buffer (Rt/XerChunk.v) ---- *)
+
+(* the flush loop with the counter kept by hand (INTEGER__dump's shape; any item text, any threshold, with or
+   without the trimmed separator): for EVERY contents length the writer offers a fixed chunk list, stops at
+   the first failing invocation, and reports the sum of the chunk lengths = the length of the whole text *)
+Theorem C07_chunked_writer_size : forall (item : Z -> bytes) (thr : Z) (trim : bool),
+  (forall b, item b <> []) ->
+  forall buf, exists cs,
+  scr (writer item thr true trim buf) cs (Some (zlen (body_text item trim buf))) /\
+  concat cs = body_text item trim buf /\
+  total cs = zlen (body_text item trim buf).
+Proof. exact writer_script. Qed.
+Print Assumptions C07_chunked_writer_size.
+
+(* INTEGER__dump, every contents length (decimal within intmax_t, xx:yy:zz beyond): reported = delivered = text *)
+Theorem C07_int_dump_size : forall content, exists cs,
+  scr (int_dump content) cs (Some (zlen (int_dump_text content))) /\
+  concat cs = int_dump_text content /\
+  total cs = zlen (int_dump_text content).
+Proof. exact int_dump_script. Qed.
+Print Assumptions C07_int_dump_size.
+
+(* beyond intmax_t the size is 3n - 1 for n significant octets, however many flushes that takes *)
+Theorem C07_int_dump_hex_size : forall content,
+  8 < zlen (strip_leading content) ->
+  exists cs, scr (int_dump content) cs (Some (3 * zlen (strip_leading content) - 1)).
+Proof. exact int_dump_hex_size. Qed.
+Print Assumptions C07_int_dump_hex_size.
+
+(* bounded writes into the local buffer: no chunk of the dump exceeds 30 characters (scratch[32]) *)
+Theorem C07_int_dump_chunks_fit_scratch : forall content,
+  8 < zlen (strip_leading content) ->
+  (forall S (cb : cbT S) s,
+     int_dump content S cb s =
+     let (s', ok) := emit cb s (writer_chunks hex3c int_thr true (strip_leading content) []) in
+     (s', if ok then Some (total (writer_chunks hex3c int_thr true (strip_leading content) [])) else None)) /\
+  Forall (fun c => zlen c <= 30 /\ zlen c <= int_scratch) (writer_chunks hex3c int_thr true (strip_leading content) []).
+Proof. exact int_dump_chunks_fit_scratch. Qed.
+Print Assumptions C07_int_dump_chunks_fit_scratch.
+
+(* through xer_encode and asn_encode, an INTEGER of ANY contents length: size told = octets delivered; a callback
+   failing at invocation k (inside the flush loop included) gives -1/EIO after k+1 invocations, first k chunks *)
+Theorem C07_int_xer_api : forall can tag content, exists calls delivered r,
+  fault_free_run false (int_xer_encoder can tag content) calls delivered r /\
+  calls = length delivered /\
+  (0 <= encoded r -> encoded r = total delivered /\ err r = E0) /\
+  (encoded r < 0 -> encoded r = -1 /\ (err r = EBADF \/ err r = ENOENT)) /\
+  (forall k, (k < calls)%nat ->
+     asn_encode (Some (user_cb (Some k))) true (Op false (int_xer_encoder can tag content)) (0%nat, []) =
+     Done ((S k, firstn k delivered), {| encoded := -1; err := EIO |})).
+Proof. exact int_xer_api. Qed.
+Print Assumptions C07_int_xer_api.
+
+(* the same for any scripted body writer wrapped by xer_encode *)
+Theorem C07_body_xer_api : forall can tag body, scripted_step body ->
+  exists calls delivered r,
+  fault_free_run false (step_inner (xer_encode_body can tag body)) calls delivered r /\
+  calls = length delivered /\
+  (0 <= encoded r -> encoded r = total delivered /\ err r = E0) /\
+  (encoded r < 0 -> encoded r = -1 /\ (err r = EBADF \/ err r = ENOENT)) /\
+  (forall k, (k < calls)%nat ->
+     asn_encode (Some (user_cb (Some k))) true (Op false (step_inner (xer_encode_body can tag body))) (0%nat, []) =
+     Done ((S k, firstn k delivered), {| encoded := -1; err := EIO |})).
+Proof. exact body_xer_api. Qed.
+Print Assumptions C07_body_xer_api.
+
+(* the variant that does not count inside the flush branch ("the total is added once at the end"): false from
+   11 octets on (witness: delivers 32 characters, reports 2) ... *)
+Theorem C07_int_dump_lastonly_refuted :
+  exists content delivered n,
+    int_dump_gen false content (list bytes) collect_cb [] = (delivered, Some n) /\
+    total delivered = zlen (int_dump_text content) /\
+    n <> total delivered.
+Proof. exact int_dump_lastonly_refuted. Qed.
+Print Assumptions C07_int_dump_lastonly_refuted.
+
+(* ... and indistinguishable from the code up to 10 octets: a corpus of bodies that fit one scratch buffer cannot see it *)
+Theorem C07_int_dump_lastonly_agrees_upto_10 : forall content S (cb : cbT S) s,
+  zlen (strip_leading content) <= 10 ->
+  int_dump_gen false content S cb s = int_dump content S cb s.
+Proof. exact int_dump_lastonly_agrees_upto_10. Qed.
+Print Assumptions C07_int_dump_lastonly_agrees_upto_10.
